@@ -183,12 +183,52 @@ impl Wake for TWaker {
 pub struct ThreadCtx {
     pub ctl: Arc<Ctl>,
     pub tid: usize,
+    /// free-running mode: no token, real OS scheduling
+    pub free: bool,
+}
+
+struct ParkWaker {
+    thread: std::thread::Thread,
+    woken: std::sync::atomic::AtomicBool,
+}
+impl Wake for ParkWaker {
+    fn wake(self: Arc<Self>) {
+        self.wake_by_ref()
+    }
+    fn wake_by_ref(self: &Arc<Self>) {
+        self.woken.store(true, std::sync::atomic::Ordering::SeqCst);
+        self.thread.unpark();
+    }
 }
 
 impl ThreadCtx {
+    /// free-running block_on: park until woken; `None` after 3 s without a wake-up
+    fn block_on_free<F: Future>(&self, fut: F) -> Option<F::Output> {
+        let mut fut = Box::pin(fut);
+        let pw = Arc::new(ParkWaker { thread: std::thread::current(), woken: std::sync::atomic::AtomicBool::new(false) });
+        let waker = Waker::from(pw.clone());
+        let mut cx = Context::from_waker(&waker);
+        let deadline = std::time::Instant::now() + std::time::Duration::from_secs(3);
+        loop {
+            if let Poll::Ready(v) = Pin::as_mut(&mut fut).poll(&mut cx) {
+                return Some(v);
+            }
+            while !pw.woken.swap(false, std::sync::atomic::Ordering::SeqCst) {
+                let now = std::time::Instant::now();
+                if now >= deadline {
+                    return None;
+                }
+                std::thread::park_timeout(deadline - now);
+            }
+        }
+    }
+
     /// Minimal block_on for a controlled thread: `Pending` means "blocked until my waker fires".
     /// Returns None if the scheduler declared a deadlock while this thread was blocked.
     pub fn block_on<F: Future>(&self, fut: F) -> Option<F::Output> {
+        if self.free {
+            return self.block_on_free(fut);
+        }
         let mut fut = Box::pin(fut);
         let tw = Arc::new(TWaker { ctl: self.ctl.clone(), tid: self.tid, woken: Mutex::new(false) });
         let waker = Waker::from(tw.clone());
@@ -274,7 +314,7 @@ where
         handles.push(std::thread::spawn(move || {
             ractor::verif::install_point_hook(Some(Arc::new(Hook { ctl: ctl.clone(), tid })));
             ctl.wait_for_token(tid);
-            let ctx = ThreadCtx { ctl: ctl.clone(), tid };
+            let ctx = ThreadCtx { ctl: ctl.clone(), tid, free: false };
             for (idx, op) in prog.iter().enumerate() {
                 let start = ctl.clock();
                 let res = exec(&shared, &ctx, tid, op);
@@ -337,4 +377,63 @@ pub fn enumerate_schedules(max_runs: usize, mut run: impl FnMut(Vec<usize>) -> V
         }
         prefix = next;
     }
+}
+
+/// Free-running variant: the same programs on uncontrolled OS threads released from a barrier.
+/// Operation intervals are stamped with a shared atomic counter, so "A ended before B started"
+/// is real-time order and the same oracles apply. `spin[tid]` busy-wait iterations are inserted
+/// before each operation to vary the relative timing.
+pub fn run_threads_free<S, O, R>(shared: Arc<S>, programs: Vec<Vec<O>>, spin: Vec<u32>, exec: fn(&S, &ThreadCtx, usize, &O) -> R) -> E2Run<R>
+where
+    S: Send + Sync + 'static,
+    O: Clone + Send + 'static,
+    R: Send + 'static,
+{
+    let n = programs.len();
+    let ctl = Arc::new(Ctl {
+        m: Mutex::new(CtlState {
+            status: vec![TSt::Runnable; n],
+            token: None,
+            sched: vec![],
+            pos: 0,
+            clock: 0,
+            preemptions: 0,
+            points: 0,
+            deadlock: false,
+            labels: Default::default(),
+            choice_log: vec![],
+            explicit: None,
+            max_preempt: None,
+        }),
+        cv: Condvar::new(),
+    });
+    let clock = Arc::new(std::sync::atomic::AtomicU64::new(0));
+    let barrier = Arc::new(std::sync::Barrier::new(n));
+    let recs: Arc<Mutex<Vec<Rec<R>>>> = Arc::new(Mutex::new(vec![]));
+    let mut handles = vec![];
+    for (tid, prog) in programs.into_iter().enumerate() {
+        let (ctl, shared, recs, clock, barrier) = (ctl.clone(), shared.clone(), recs.clone(), clock.clone(), barrier.clone());
+        let spins = spin.get(tid).copied().unwrap_or(0);
+        handles.push(std::thread::spawn(move || {
+            let ctx = ThreadCtx { ctl, tid, free: true };
+            let mut local = vec![];
+            barrier.wait();
+            for (idx, op) in prog.iter().enumerate() {
+                for _ in 0..spins {
+                    std::hint::spin_loop();
+                }
+                let start = clock.fetch_add(1, std::sync::atomic::Ordering::SeqCst);
+                let res = exec(&shared, &ctx, tid, op);
+                let end = clock.fetch_add(1, std::sync::atomic::Ordering::SeqCst);
+                local.push(Rec { tid, idx, start, end, res });
+            }
+            recs.lock().unwrap().extend(local);
+        }));
+    }
+    for h in handles {
+        let _ = h.join();
+    }
+    let mut recs = std::mem::take(&mut *recs.lock().unwrap());
+    recs.sort_by_key(|r| r.start);
+    E2Run { recs, deadlock: false, preemptions: 1, points: 0, labels: vec![], choice_log: vec![] }
 }
